@@ -177,8 +177,6 @@ def PAX_MTIME := 0x100
 def PAX_SPARSE_SIZE := 0x400
 def PAX_SPARSE_GNU_1_X := 0x800
 
-def strBytes (s : String) : Bytes := s.toUTF8.toList
-
 def isPrefixOf (p s : Bytes) : Bool := s.take p.length == p
 
 /-- `urldecode` (in place, never longer than its input) -/
@@ -229,39 +227,39 @@ def paxApply (fixed : Bool) (buf : Bytes) (r : PaxRec) (o : PaxOut) : R PaxOut :
       match cstr buf (buf.length + 1) r.value with
       | .ok v => .ok { (f v) with flags := (f v).flags ||| flag }
       | .fail c => .fail c | .oob => .oob | .spin => .spin
-    if key = strBytes "uid" then num PAX_UID (fun v => { o with uid := v })
-    else if key = strBytes "gid" then num PAX_GID (fun v => { o with gid := v })
-    else if key = strBytes "path" then str PAX_NAME (fun v => { o with name := some v })
-    else if key = strBytes "size" then num PAX_SIZE (fun v => { o with size := v })
-    else if key = strBytes "linkpath" then str PAX_SLINK_TARGET (fun v => { o with link := some v })
-    else if key = strBytes "mtime" then
+    if key = ([117, 105, 100] : Bytes) /- "uid" -/ then num PAX_UID (fun v => { o with uid := v })
+    else if key = ([103, 105, 100] : Bytes) /- "gid" -/ then num PAX_GID (fun v => { o with gid := v })
+    else if key = ([112, 97, 116, 104] : Bytes) /- "path" -/ then str PAX_NAME (fun v => { o with name := some v })
+    else if key = ([115, 105, 122, 101] : Bytes) /- "size" -/ then num PAX_SIZE (fun v => { o with size := v })
+    else if key = ([108, 105, 110, 107, 112, 97, 116, 104] : Bytes) /- "linkpath" -/ then str PAX_SLINK_TARGET (fun v => { o with link := some v })
+    else if key = ([109, 116, 105, 109, 101] : Bytes) /- "mtime" -/ then
       match parseI buf r.value none true with
       | .ok (v, _) => .ok { o with mtime := v, flags := o.flags ||| PAX_MTIME }
       | .fail _ => .fail 3 | .oob => .oob | .spin => .spin
-    else if key = strBytes "GNU.sparse.name" then str PAX_NAME (fun v => { o with name := some v })
-    else if key = strBytes "GNU.sparse.size" ∨ key = strBytes "GNU.sparse.realsize" then
+    else if key = ([71, 78, 85, 46, 115, 112, 97, 114, 115, 101, 46, 110, 97, 109, 101] : Bytes) /- "GNU.sparse.name" -/ then str PAX_NAME (fun v => { o with name := some v })
+    else if key = ([71, 78, 85, 46, 115, 112, 97, 114, 115, 101, 46, 115, 105, 122, 101] : Bytes) /- "GNU.sparse.size" -/ ∨ key = ([71, 78, 85, 46, 115, 112, 97, 114, 115, 101, 46, 114, 101, 97, 108, 115, 105, 122, 101] : Bytes) /- "GNU.sparse.realsize" -/ then
       num PAX_SPARSE_SIZE (fun v => { o with actual := v })
-    else if key = strBytes "GNU.sparse.major" ∨ key = strBytes "GNU.sparse.minor" then
+    else if key = ([71, 78, 85, 46, 115, 112, 97, 114, 115, 101, 46, 109, 97, 106, 111, 114] : Bytes) /- "GNU.sparse.major" -/ ∨ key = ([71, 78, 85, 46, 115, 112, 97, 114, 115, 101, 46, 109, 105, 110, 111, 114] : Bytes) /- "GNU.sparse.minor" -/ then
       .ok { o with flags := o.flags ||| PAX_SPARSE_GNU_1_X }
-    else if isPrefixOf (strBytes "SCHILY.xattr.") key then
+    else if isPrefixOf (([83, 67, 72, 73, 76, 89, 46, 120, 97, 116, 116, 114, 46] : Bytes) /- "SCHILY.xattr." -/) key then
       -- `sqfs_xattr_create(key + strlen(name) + 1, value, valuelen)`: the value is the `valuelen` raw bytes
       .ok { o with xattr := { key := key.drop 13, value := (buf.drop r.value).take r.valueLen } :: o.xattr }
-    else if isPrefixOf (strBytes "LIBARCHIVE.xattr.") key then
+    else if isPrefixOf (([76, 73, 66, 65, 82, 67, 72, 73, 86, 69, 46, 120, 97, 116, 116, 114, 46] : Bytes) /- "LIBARCHIVE.xattr." -/) key then
       -- in-place `base64_decode(value, value_len, value, &value_len)`, then `urldecode(key)`
       match base64Decode buf r.value r.valueLen r.valueLen with
       | .ok v => .ok { o with xattr := { key := urldecode (key.drop 17), value := v } :: o.xattr }
       | .fail _ => .fail 3 | .oob => .oob | .spin => .spin
-    else if key = strBytes "GNU.sparse.map" then
+    else if key = ([71, 78, 85, 46, 115, 112, 97, 114, 115, 101, 46, 109, 97, 112] : Bytes) /- "GNU.sparse.map" -/ then
       match sparseMapLoop buf (buf.length + 1) r.value [] with
       | .ok l =>
         if fixed then .ok { o with sparse := l, sparseOpen := false }
         else .ok { o with sparse := l, stale := o.sparseOpen }
       | .fail c => .fail c | .oob => .oob | .spin => .spin
-    else if key = strBytes "GNU.sparse.offset" then
+    else if key = ([71, 78, 85, 46, 115, 112, 97, 114, 115, 101, 46, 111, 102, 102, 115, 101, 116] : Bytes) /- "GNU.sparse.offset" -/ then
       match parseU 10 buf r.value none true 0 0 with
       | .ok (v, _) => .ok { o with offset := v }
       | .fail _ => .fail 1 | .oob => .oob | .spin => .spin
-    else if key = strBytes "GNU.sparse.numbytes" then
+    else if key = ([71, 78, 85, 46, 115, 112, 97, 114, 115, 101, 46, 110, 117, 109, 98, 121, 116, 101, 115] : Bytes) /- "GNU.sparse.numbytes" -/ then
       match parseU 10 buf r.value none true 0 0 with
       | .ok (v, _) =>
         let e : SparseEnt := { offset := o.offset, count := v }
